@@ -205,7 +205,9 @@ func c08Prop(st *CaseStats, fam int) func(t *rapid.T) {
 			desc       string
 			it         segment.DictionaryIterator
 			dict       segment.Dictionary
+			aut        automaton
 			got        []entry
+			opened     bool
 			done       bool
 			closed     bool
 		}
@@ -299,9 +301,11 @@ func c08Prop(st *CaseStats, fam int) func(t *rapid.T) {
 					q.filtered++
 				}
 			}
+			q.aut = a
 			qs = append(qs, q)
-			open(q, a)
 			if !interleave {
+				open(q, a)
+				q.opened = true
 				for !q.done {
 					step(q)
 				}
@@ -317,30 +321,61 @@ func c08Prop(st *CaseStats, fam int) func(t *rapid.T) {
 			}
 		}
 		if interleave {
+			// a drawn schedule of open / step / close over all queries: iterators are opened while others are
+			// half consumed, and finished ones are closed early, late, or only at the very end
 			switches := 0
 			lastPick := -1
+			lateClose := false
 			for {
-				var open []int
+				type act struct{ kind, q int }
+				var acts []act
 				for i, q := range qs {
-					if !q.done {
-						open = append(open, i)
+					switch {
+					case !q.opened:
+						acts = append(acts, act{0, i})
+					case !q.done:
+						acts = append(acts, act{1, i}, act{1, i})
+					case !q.closed && (sharedDict || !closeEarly):
+						acts = append(acts, act{2, i})
 					}
 				}
-				if len(open) == 0 {
+				stepsLeft := false
+				for _, a := range acts {
+					if a.kind != 2 {
+						stepsLeft = true
+					}
+				}
+				if !stepsLeft {
 					break
 				}
-				pick := open[rapid.IntRange(0, len(open)-1).Draw(t, "pick")]
-				if lastPick >= 0 && pick != lastPick && !qs[lastPick].done {
-					switches++
+				a := acts[rapid.IntRange(0, len(acts)-1).Draw(t, "pick")]
+				q := qs[a.q]
+				switch a.kind {
+				case 0:
+					open(q, q.aut)
+					q.opened = true
+				case 1:
+					if lastPick >= 0 && a.q != lastPick && qs[lastPick].opened && !qs[lastPick].done {
+						switches++
+					}
+					lastPick = a.q
+					step(q)
+				default:
+					q.closed = true
+					if err := safely("close", q.it.Close); err != nil {
+						fail(q, err)
+					}
+					lateClose = true
 				}
-				lastPick = pick
-				step(qs[pick])
 			}
 			if switches > 0 {
 				labels = append(labels, "interleaved-dict-iterators")
 				if sharedDict {
 					labels = append(labels, "interleaved-on-one-dictionary")
 				}
+			}
+			if lateClose {
+				labels = append(labels, "iterator-closed-while-others-open")
 			}
 		}
 		for _, q := range qs {
